@@ -6,7 +6,7 @@ import re
 
 import numpy as np
 
-from .. import geom, machine, readers, refmodel, replcheck, seams
+from .. import geom, machine, readers, refmodel, replcheck, restart, seams
 from ..core import Violation, HarnessError
 from ..refmodel import KINDS, PLURAL
 
@@ -54,13 +54,14 @@ def generate(rng, tier):
             "via_load": rng.choice(["path", "file", "load_p1_cif"]),
             "read_script": rng.choice([None, {"chunk": "random", "seed": rng.getrandbits(16)}, {"chunk": "prime"}]),
             "write_fault": rng.choice([{"enospc_after": rng.randint(0, 1500)}, {"eio_after": rng.randint(0, 1500)}]) if rng.random() < 0.2 else None,
-            "read_fault": rng.random() if rng.random() < 0.2 else None}
+            "read_fault": rng.random() if rng.random() < 0.2 else None,
+            "pathkind": rng.choice(["std", "std", "odd_ext", "pathlib"]), "same_handle": rng.random() < 0.3}
     # hand-made text
     n = rng.randint(1, 8)
     hcell = geom.make_cell(rng, rng.choice(["ortho", "tri_pos", "tri_neg", "tri_mixed"]), rng.uniform(5, 12), [], roomy=(1.0, 1.5))
     hm = {"n": n, "cell": hcell.tolist(), "elements": [rng.choice(machine.SAFE_ELEMENTS) for _ in range(n)],
           "frac": [[round(rng.uniform(-2.6, 3.4) if rng.random() < 0.4 else rng.random(), 5) for _ in range(3)] for _ in range(n)],
-          "cartesian": rng.random() < 0.3, "su": rng.random() < 0.5, "charges": [round(rng.uniform(-1, 1), 3) for _ in range(n)] if rng.random() < 0.5 else None,
+          "cartesian": rng.random() < 0.3, "su": rng.random() < 0.5, "su_some": rng.choice([0, 0, rng.getrandbits(16) + 1]), "charges": [round(rng.uniform(-1, 1), 3) for _ in range(n)] if rng.random() < 0.5 else None,
           "sg": rng.choice(["P 1", "P1", "P 1", None, "P -1", "P 21/c", "F m -3 m", "P 1 21 1", "C 2/m"]),
           "bonds": [rng.sample(range(n), 2) for _ in range(rng.randint(0, 4))] if n > 1 else [],
           "extra": rng.random() < 0.4, "label_style": rng.choice(["el_n", "n_el", "X"]), "read_script": rng.choice([None, {"chunk": "random", "seed": rng.getrandbits(16)}])}
@@ -82,11 +83,15 @@ def circ(a, b):
     return np.minimum(d, 1.0 - d)
 
 
-def _save(ctx, fs, real, via, name, fract):
-    path = "/sim/%s.cif" % name
+def _save(ctx, fs, real, via, name, fract, pathkind="std"):
+    path = "/sim/%s.cif" % name if pathkind != "odd_ext" else "/sim/%s.cif.%s" % (name, ("bak", "lmpdat", "1", "txt")[len(name) % 4])
     try:
         if via == "path":
-            real.save(path, use_fract_coords=fract)
+            if pathkind == "odd_ext":
+                ctx.count("explicit_filetype_over_extension")
+                real.save(path, filetype="cif", use_fract_coords=fract)
+            else:
+                real.save(restart.path_arg(path, pathkind), use_fract_coords=fract)
             hs = [h for h in fs.open_handles if h.path_ == path and h.mode_ != "r"]
             if hs and not hs[-1].closed_:
                 raise Violation("c15:file-left-open", "Atoms.save(path) returned normally but left the file open", site="save_p1_cif")
@@ -104,13 +109,44 @@ def _save(ctx, fs, real, via, name, fract):
     return fs.files[path], path
 
 
-def _load(ctx, fs, path, via, read_script=None, expect_error=False):
+def _same_handle(ctx, fs, real, via_save, via_load, name, fract):
+    """The caller's own read/write stream: written, rewound and read back through one handle."""
+    from mofun import Atoms
+    path = "/sim/%s.cif" % name
+    try:
+        fh = fs.rw(path)
+        if via_save == "file":
+            real.save(fh, filetype="cif", use_fract_coords=fract)
+        else:
+            real.save_p1_cif(fh, use_fract_coords=fract)
+        try:
+            fh.seek(0)
+        except ValueError as e:
+            raise Violation("c15:callers-stream-closed", "writing to the caller's open read/write stream closed it: rewinding and reading it back fails (%s)" % e, site="save_p1_cif")
+        text = fs.files[path]
+        re = Atoms.load(fh, filetype="cif") if via_load == "file" else Atoms.load_p1_cif(fh)
+        try:
+            fh.seek(0)
+        except ValueError as e:
+            raise Violation("c15:callers-stream-closed", "reading from the caller's open stream closed it (%s)" % e, site="load_p1_cif")
+        fh.close()
+    except Violation:
+        raise
+    except Exception as e:
+        raise Violation("raises:%s" % type(e).__name__, "writing a P1 CIF to / reading it back from the caller's read/write stream: %s" % e, site="save_p1_cif")
+    ctx.count("same_handle_roundtrips")
+    return text, path, re
+
+
+def _load(ctx, fs, path, via, read_script=None, expect_error=False, pathkind="std"):
     from mofun import Atoms
     try:
         if via == "path":
             fs.script = dict(fs.script, read=read_script or {})
             try:
-                return Atoms.load(path)
+                if not path.endswith(".cif"):
+                    return Atoms.load(path, filetype="cif")
+                return Atoms.load(restart.path_arg(path, pathkind))
             finally:
                 fs.script = dict(fs.script, read={})
         fh = fs.reader(fs.files[path], name=path, script=read_script or {})
@@ -279,7 +315,13 @@ def _ase_agreement(ctx, text, re_, where):
 
 def _handmade_text(hm):
     la, lb, lc, al, be, ga = cellpar(hm["cell"])
-    su = (lambda s, k: "%s(%d)" % (s, k)) if hm["su"] else (lambda s, k: s)
+    # standard uncertainties on every number, on none, or (su_some) on an arbitrary subset: refined and fixed parameters mix freely
+    import random as _r
+    mask = _r.Random(int(hm.get("su_some") or 0))
+    if hm["su"] and hm.get("su_some"):
+        su = lambda s, k: ("%s(%d)" % (s, k)) if mask.random() < 0.5 else s
+    else:
+        su = (lambda s, k: "%s(%d)" % (s, k)) if hm["su"] else (lambda s, k: s)
     out = ["data_handmade", ""]
     if hm["sg"] is not None:
         out.append("_symmetry_space_group_name_H-M   '%s'" % hm["sg"])
@@ -388,11 +430,16 @@ def execute(spec, ctx):
         fs.crash()
         if replcheck.snapshot(real) != before:
             raise Violation("c15:save-modified-object", "a failed CIF save changed the in-memory structure", site="save_p1_cif")
-    t1, p1 = _save(ctx, fs, real, case["via_save"], "t1", fract)
+    re1 = None
+    if case.get("same_handle") and case["via_save"] != "path" and case["via_load"] != "path":
+        t1, p1, re1 = _same_handle(ctx, fs, real, case["via_save"], case["via_load"], "t1", fract)
+    else:
+        t1, p1 = _save(ctx, fs, real, case["via_save"], "t1", fract, pathkind=case.get("pathkind", "std"))
     if replcheck.snapshot(real) != before:
         raise Violation("c15:save-modified-object", "writing a CIF modified the in-memory structure", site="save_p1_cif")
     prec = _check_text(ctx, t1, m, fract)
-    re1 = _load(ctx, fs, p1, case["via_load"], case.get("read_script"))
+    if re1 is None:
+        re1 = _load(ctx, fs, p1, case["via_load"], case.get("read_script"), pathkind=case.get("pathkind", "std"))
     _check_reload(ctx, re1, m, fract, "reload of first write, %s coordinates" % ("fractional" if fract else "cartesian"), prec)
     if case.get("read_fault") is not None:
         fired0 = fs.stats.get("eio_read_fired", 0)
